@@ -49,6 +49,34 @@ struct LogComb {
   void operator()(LogS& a, LogS&& b) const { LogS t(std::move(b)); (*this)(a, static_cast<const LogS&>(t)); }
 };
 
+// serde of the log summary (count u32, then the int64 items): lets log-flavour sketches travel through serialize / deserialize
+struct LogSerde {
+  void serialize(std::ostream& os, const LogS* items, unsigned num) const {
+    for (unsigned i = 0; i < num; ++i) { uint32_t n = (uint32_t)items[i].log.size(); os.write((const char*)&n, 4);
+      if (n) os.write((const char*)items[i].log.data(), 8 * (size_t)n); }
+  }
+  void deserialize(std::istream& is, LogS* items, unsigned num) const {
+    for (unsigned i = 0; i < num; ++i) { uint32_t n = 0; is.read((char*)&n, 4);
+      if (!is.good() || n > (1u << 20)) throw std::runtime_error("error reading a log summary");
+      new (&items[i]) LogS(); items[i].log.resize(n); if (n) is.read((char*)items[i].log.data(), 8 * (size_t)n);
+      if (!is.good()) { items[i].~LogS(); throw std::runtime_error("error reading a log summary"); } }
+  }
+  size_t size_of_item(const LogS& s) const { return 4 + 8 * s.log.size(); }
+  size_t serialize(void* ptr, size_t capacity, const LogS* items, unsigned num) const {
+    char* p = (char*)ptr; size_t used = 0;
+    for (unsigned i = 0; i < num; ++i) { size_t sz = size_of_item(items[i]); if (used + sz > capacity) throw std::out_of_range("log summary does not fit");
+      uint32_t n = (uint32_t)items[i].log.size(); memcpy(p + used, &n, 4); if (n) memcpy(p + used + 4, items[i].log.data(), 8 * (size_t)n); used += sz; }
+    return used;
+  }
+  size_t deserialize(const void* ptr, size_t capacity, LogS* items, unsigned num) const {
+    const char* p = (const char*)ptr; size_t used = 0;
+    for (unsigned i = 0; i < num; ++i) { if (used + 4 > capacity) throw std::out_of_range("log summary truncated");
+      uint32_t n; memcpy(&n, p + used, 4); if (used + 4 + 8 * (size_t)n > capacity) throw std::out_of_range("log summary truncated");
+      new (&items[i]) LogS(); items[i].log.resize(n); if (n) memcpy(items[i].log.data(), p + used + 4, 8 * (size_t)n); used += 4 + 8 * (size_t)n; }
+    return used;
+  }
+};
+
 struct LogF {
   typedef LogS Summary;
   typedef update_tuple_sketch<LogS, int64_t, LogPolicy> USk;
@@ -63,6 +91,10 @@ struct LogF {
   static Union::builder unbuilder(I) { return Union::builder(LogComb(-8)); }
   static Inter* inter(uint64_t seed, I) { return new Inter(seed, LogComb(-9)); }
   static CSk wrap(CBase&& b, I) { return CSk(std::move(b)); }
+  static CBase reload(const CBase& c, int path, uint64_t seed) {      // deserialize(serialize(c)) through the bytes (0) or stream (1) path
+    if (path == 0) { auto b = c.serialize(0, LogSerde()); return CBase::deserialize(b.data(), b.size(), seed, LogSerde()); }
+    std::stringstream ss; c.serialize(ss, LogSerde()); return CBase::deserialize(ss, seed, LogSerde());
+  }
   static I pol_of(const USk&) { return 0; }
   static I pol_of(const CSk&) { return 0; }
   static Summary summary_from(const Line& v, I) { LogS s; for (I x : v) s.log.push_back((int64_t)x); return s; }
@@ -96,6 +128,10 @@ struct IntF {
   static Union::builder unbuilder(I) { return Union::builder(); }
   static Inter* inter(uint64_t seed, I) { return new Inter(seed, IntSum()); }
   static CSk wrap(CBase&& b, I) { return CSk(std::move(b)); }
+  static CBase reload(const CBase& c, int path, uint64_t seed) {
+    if (path == 0) { auto b = c.serialize(); return CBase::deserialize(b.data(), b.size(), seed); }
+    std::stringstream ss; c.serialize(ss); return CBase::deserialize(ss, seed);
+  }
   static I pol_of(const USk&) { return -1; }
   static I pol_of(const CSk&) { return -1; }
   static Summary summary_from(const Line& v, I) { return (int64_t)v.at(0); }
@@ -140,6 +176,11 @@ struct ArrF {
   static Union::builder unbuilder(I pol) { return Union::builder(default_array_of_doubles_union_policy((uint8_t)pol)); }
   static Inter* inter(uint64_t seed, I pol) { return new Inter(seed, ArrSum((uint8_t)pol)); }
   static CSk wrap(CBase&& b, I pol) { return CSk(std::move(b), (uint8_t)pol); }
+  static CBase reload(const CSk& c, int path, uint64_t seed) {      // through compact_array_of_doubles_sketch (ArrayOfDoublesCompactSketch image)
+    compact_array_of_doubles_sketch a(c, false);
+    if (path == 0) { auto b = a.serialize(); return CBase(compact_array_of_doubles_sketch::deserialize(b.data(), b.size(), seed)); }
+    std::stringstream ss; a.serialize(ss); return CBase(compact_array_of_doubles_sketch::deserialize(ss, seed));
+  }
   static I pol_of(const USk& s) { return s.get_num_values(); }
   static I pol_of(const CSk& s) { return s.get_num_values(); }
   static Summary summary_from(const Line& v, I pol) { Arr a((uint8_t)pol, 0); for (size_t i = 0; i < v.size(); ++i) a[i] = (double)(int64_t)v[i]; return a; }
@@ -256,9 +297,39 @@ template<class F> static void sketch_op(int code, Reg& g, const Line& t, Out& o)
     else { I pol = F::pol_of(*c); store_c<F>(t.at(2), typename F::CBase(*c, ord), pol, o); }
     break; }
   case 6: { Reg n;
-    if (u) { Acc<F>::u(n).reset(new typename F::USk(*u)); dump<F>(*Acc<F>::u(n), o); }
-    else { Acc<F>::c(n).reset(new typename F::CSk(*c)); dump<F>(*Acc<F>::c(n), o); }
+    // optional 4th token: HOW the copy is made (all mean "r2 := copy of r" for the model):
+    //   0 copy constructor; 1 copy ASSIGNMENT onto a sketch in another state (estimation mode, lg_k 5, p 0.5);
+    //   2 move constructor from a temporary copy; 3 move assignment from a temporary copy onto such a sketch
+    const long how = t.size() > 3 ? (long)t.at(3) : 0;
+    const I pol = u ? F::pol_of(*u) : F::pol_of(*c);
+    std::unique_ptr<typename F::USk> other;
+    if (how == 1 || how == 3) {
+      auto b = F::ubuilder(pol); b.set_lg_k(5); b.set_p(0.5f);
+      other.reset(new typename F::USk(b.build()));
+      Line one(F::nvals(pol), 1);
+      for (int i = 0; i < 300; ++i) F::template upd<uint64_t>(*other, (uint64_t)(1000003u * (unsigned)i + 17u), one, false);
+    }
+    if (u) {
+      auto& d = Acc<F>::u(n);
+      if (how == 0) d.reset(new typename F::USk(*u));
+      else if (how == 2) { typename F::USk tmp(*u); d.reset(new typename F::USk(std::move(tmp))); }
+      else { d.reset(other.release()); if (how == 1) *d = *u; else { typename F::USk tmp(*u); *d = std::move(tmp); } }
+      dump<F>(*d, o);
+    } else {
+      auto& d = Acc<F>::c(n);
+      if (how == 0) d.reset(new typename F::CSk(*c));
+      else if (how == 2) { typename F::CSk tmp(*c); d.reset(new typename F::CSk(std::move(tmp))); }
+      else { d.reset(new typename F::CSk(F::wrap(typename F::CBase(other->compact(how == 1)), pol)));
+             if (how == 1) *d = *c; else { typename F::CSk tmp(*c); *d = std::move(tmp); } }
+      dump<F>(*d, o);
+    }
     regs[(long)t.at(2)] = std::move(n); break; }
+  case 36: { // r2 := deserialize(serialize(compact(r, ordered))) through the bytes (0) / stream (1) path with the given seed
+    bool ord = t.at(3) != 0; int path = (int)t.at(4); uint64_t seed = (uint64_t)t.at(5);
+    const I pol = u ? F::pol_of(*u) : F::pol_of(*c);
+    typename F::CSk cs = u ? F::wrap(typename F::CBase(u->compact(ord)), pol) : F::wrap(typename F::CBase(*c, ord), pol);
+    store_c<F>(t.at(2), F::reload(cs, path, seed), pol, o);
+    break; }
   case 7: if (u) dump<F>(*u, o); else dump<F>(*c, o); break;
   case 11: { int pk = (int)t.at(3); I pa = t.at(4);
     auto pred = [pk, pa](const typename F::Summary& s) { return predicate<F>(pk, pa, s); };
@@ -420,7 +491,7 @@ static void handler(const Line& t, Out& o) {
   case 1: { I pol = t.at(2);
     if (pol == 0) new_update<LogF>(t, o); else if (pol == -1) new_update<IntF>(t, o); else if (ArrF::pol_ok(pol)) new_update<ArrF>(t, o); else throw std::invalid_argument("bad policy");
     break; }
-  case 2: case 3: case 4: case 5: case 6: case 7: case 11: {
+  case 2: case 3: case 4: case 5: case 6: case 7: case 11: case 36: {
     Reg& g = get(t.at(1));
     if (g.lu || g.lc) sketch_op<LogF>(code, g, t, o);
     else if (g.iu || g.ic) sketch_op<IntF>(code, g, t, o);
